@@ -36,6 +36,26 @@ fn real_main() -> i32 {
         sv::eng::cleanup_scratch();
         return if out["verdict"] == "violated" { 1 } else { 0 };
     }
+    if args[1] == "miri-laws" {
+        // law checker over a reduced pool, no file I/O: small enough for the Miri interpreter (undefined behaviour / data race detector)
+        let (pairs, triples, violations) = sv::monitors::c16::laws_small();
+        println!("miri-laws pairs={} triples={} violations={}", pairs, triples, violations.len());
+        for v in &violations { println!("  {}", v); }
+        return if violations.is_empty() { 0 } else { 1 };
+    }
+    if args[1] == "miri-interrupt" {
+        // one small JSON-table case with a real interrupter thread: Miri's data-race detector watches the shared flag and the executor
+        let seed: u64 = args.get(2).and_then(|s| s.parse().ok()).unwrap_or(1);
+        let mut rng = sv::rng::Rng::new(seed);
+        let case = loop { let c = sv::monitors::c19::gen_case(&mut rng, "thread"); if c["tables"].as_str().map(|t| t.contains("{ . k }")).unwrap_or(false) && c["joined"].is_null() { break c; } };
+        let mon = sv::monitors::by_id("C19").unwrap();
+        let mut obs = Obs::default();
+        let v = mon.check(&case, &mut obs);
+        let (code, text) = match v { Verdict::Held => (0, "held".to_string()), Verdict::Inconclusive(r) => (0, format!("inconclusive: {}", r)), Verdict::Violated(vs) => (1, vs.iter().map(|v| format!("{} :: {}", v.sig, v.detail)).collect::<Vec<_>>().join("; ")) };
+        println!("miri-interrupt seed={} evals={} verdict={}", seed, obs.evals, text);
+        sv::eng::cleanup_scratch();
+        return code;
+    }
     if args[1] == "run-case" {
         // child of the C18 monitor: fresh process = fresh hash seeds
         let Some(path) = args.get(2) else { return 2; };
